@@ -19,7 +19,7 @@ ASSUMPTIONS = ["blueprint channels only (the property's domain)", "blueprints ar
 
 FN_PARAMS = {"ramp": ["start", "stop"], "sine": ["freq", "ampl", "off", "phase"], "gaussian": ["ampl", "sigma", "mu", "offset"],
              "gsc": ["ampl", "sigma", "mu", "offset"], "const": ["level"], "lin2": ["a", "b"], "poly4": ["a", "b", "c", "d"],
-             "pi2pulse": ["ampl"], "x9y": ["u", "v"]}
+             "pi2pulse": ["ampl"], "x9y": ["u", "v"], "lin2~": ["b", "a"]}
 
 
 def seg_table(bops):
@@ -156,9 +156,12 @@ def case(g, tier, ci):
     chans, P = info["chans"], info["P"]
     for _ in range(r.choice([0, 1, 1, 1, 2, 3])):
         side = r.choice(["a", "b"])
-        k = r.choice(["seq", "seq", "amp", "off", "delay", "filter", "SR", "elarg", "read", "newpos"])
+        k = r.choice(["seq", "seq", "amp", "off", "delay", "filter", "SR", "elarg", "read", "newpos", "name"])
         ch = r.choice(chans)
-        if k == "seq":
+        if k == "name":
+            # the name is not compared by ==; then it may not show in description or forged output either
+            ops.append({"op": "sq.setName", "id": side, "name": r.choice(["rabi", "t1", ""])})
+        elif k == "seq":
             fld = r.choice(["twait", "nrep", "jump_input", "jump_target", "goto"])
             pos = r.randint(1, P)
             v = r.randint(0, P) if fld in ("jump_target", "goto") else r.choice([0, 1, 2, 3])
